@@ -292,9 +292,25 @@ class P(Prop):
         a = {k: v for k, v in impl_out.items() if k != "detail"}
         if close(a, model_out, self.rel_tol):
             return None
-        # freedom left by the property: a tie between two segments (same distance, each answer valid)
-        if "err" not in a and "err" not in model_out and self.spec(case, a) is None and self.spec(case, model_out) is None:
-            return None
+        # freedom left by the property: a tie (same distance reached on two segments / at two points). The two
+        # answers must then have the same distance and the same standing w.r.t. the oracle (both right, or both
+        # in the same listed defect class); everything else must be equal.
+        if "err" not in a and "err" not in model_out:
+            ra, rm = self.rows_of(case, a), self.rows_of(case, model_out)
+            rest_a = {k: v for k, v in a.items() if k not in ("rows", "d", "p", "i")}
+            rest_m = {k: v for k, v in model_out.items() if k not in ("rows", "d", "p", "i")}
+            if len(ra) == len(rm) and rest_a == rest_m:
+                X, Y = self.poly_of(case)
+                ok = True
+                for (q, d1, x1, y1, i1), (_, d2, x2, y2, i2) in zip(ra, rm):
+                    if close([d1, x1, y1, i1], [d2, x2, y2, i2], self.rel_tol):
+                        continue
+                    v1 = self.classify_one(X, Y, q, (d1, x1, y1, i1))
+                    v2 = self.classify_one(X, Y, q, (d2, x2, y2, i2))
+                    if not (close(d1, d2, self.rel_tol) and v1 is not None and v1 == v2):
+                        ok = False
+                if ok:
+                    return None
         return "impl=%s model=%s" % (a, model_out)
 
     # ------------------------------------------------------------------ oracle
